@@ -318,6 +318,6 @@ func c08PeriodGen(rt *rapid.T) c08PCase {
 
 func TestVerif_C08_period(t *testing.T) {
 	c08GetServer()
-	kit.Run(t, "C08", "period", kit.Opts{Quick: 300, Thorough: 20000}, c08PeriodGen,
+	kit.Run(t, "C08", "period", kit.Opts{Quick: 250, Thorough: 20000}, c08PeriodGen,
 		func(c c08PCase) kit.Verdict { return c08PeriodInterp(t, c) })
 }
